@@ -8,14 +8,21 @@ MANIFEST = dict(
     design="4/C07")
 
 
+def _sync_field(r):
+    # a slots/trans record whose Go post-state stores another sync committee than the Spec computes from the pre-state
+    return r["kind"] in ("slots", "trans") and not r["ok"] and "sync_committee" in r["detail"] and "differs in" in r["detail"]
+
+
 def select(r):
-    return r["kind"] == "epc" and r["detail"].startswith("epc-fresh")
+    return (r["kind"] == "epc" and r["detail"].startswith("epc-fresh")) or _sync_field(r)
 
 
 def judge(r):
     if r["ok"]:
         return None
     d = r["detail"]
+    if _sync_field(r):
+        return 2
     if any(k in d for k in ("_committee", "_active", "proposers", "sync_")):
         return 2
     return None  # effective balances / stake of the fresh context belong to C08
@@ -24,7 +31,7 @@ def judge(r):
 def make_check():
     return beacon.BeaconCheck(
         "C07", select, judge,
-        rule="every `epc` record of every generated chain (after each block, epoch boundary, upgrade, validator-adding deposit): zrnt's NewEpochsContext(state) vs the Spec evaluated on the same state bytes: active sets and all committees of 3 epochs, proposers of all slots, current/next sync-committee indices. distinct = (chain, record); all are non-trivial (>= 8 validators, >= 1 committee per slot)",
+        rule="every `epc` record of every generated chain (after each block, epoch boundary, upgrade, validator-adding deposit): zrnt's NewEpochsContext(state) vs the Spec evaluated on the same state bytes: active sets and all committees of 3 epochs, proposers of all slots, current/next sync-committee indices; plus every slots/trans record whose Go post-state stores a current/next sync committee other than the one the Spec computes at that period boundary or upgrade. distinct = (chain, record); all are non-trivial (>= 8 validators, >= 1 committee per slot)",
         make_targets=["Properties/C07.vo", "Beacon/Run.vo"], trust=beacon.BEACON_TRUST,
         model_files=["coq/Beacon/Spec/Helpers.v", "coq/Beacon/Run.v", "coq/Beacon/Proofs/CommitteeSlices.v", "coq/Beacon/Proofs/CommitteePartition.v", "coq/Beacon/Proofs/ShuffleBridge.v", "coq/Properties/C07.v"],
         notes="conditional: compute_proposer_index / sync sampling use fuel 40000 candidates; a state on which the spec loop does not terminate within that is out of domain.")
